@@ -949,6 +949,8 @@ fn split_text(s: &str) -> Vec<String> {
             is_string = false;
         } else if c == '/' && iter.peek() == Some(&'/') && !is_string {
             is_comment = true;
+            ret.push(x);
+            x = String::from("");
         } else if !is_string {
             if is_ident != is_ident_prev {
                 ret.push(x);
